@@ -21,7 +21,8 @@ BOUNDS = {
              'directory, cache unreadable: EOFError / OSError / ValueError / zlib.error from gzip+json, document of class '
              'non-dict / no software / wrong software / cacheFileVersion not None (symbolic int) / missing key / right software and '
              'version but one field (createdDirs, rootOperations, funcVersions, operationVersions, buildName, first operation record) '
-             'of the wrong JSON shape (null, number, string, nested list, object, absent)}',
+             'of the wrong JSON shape (null, number, string, nested list, object, absent)}; for a different build name and an unreadable cache '
+             'also with the cache file named dir/no-such-dir/../cache and cache/ (unnormalised spellings the OS cannot resolve)',
     'thorough': 'the same on top of B.M.B histories (tampered outputs)',
 }
 ASSUMPTIONS = [
@@ -329,6 +330,13 @@ def harness(eng, fam, P):
         else:
             what = DOC_CLASSES[eng.choose('doc', len(DOC_CLASSES))]
             corrupt(eng, w, 'doc', what)
+        if fam in ('name', 'read-error') and isinstance(cache, str):
+            # the same cache file under an unnormalised spelling the OS itself cannot resolve (a missing directory followed
+            # by '..', a trailing separator): the library works on the absolute normalised path
+            import posixpath as _pp
+            cs = eng.choose('cache-spelling', 3)
+            cache = [cache, _pp.dirname(cache) + '/no-such-dir/../' + _pp.basename(cache), cache + '/'][cs]
+            what = '%s cache-spelling=%s' % (what, ['plain', 'missing-dotdot', 'trailing-separator'][cs])
         eng.path_info.update({'api': api, 'case': what})
         pre = w.fs.snapshot(w.root)
         try:
